@@ -358,7 +358,26 @@ def run(report):
                 "targetHere": "::" not in a["target"]} for a in root["aliases"]]
         return {"op": "entries", "decls": decls, "aliases": als}
 
-    emodel = drv.pbatch([entries_request(root) for root, _ in cases], chunk=1000)
+    def placed_of(root, files):
+        """where each public, enabled recipe of the root module stands: (offsets of the import statements leading to its
+        file, offset of its name), in bytes, read off the generated texts"""
+        chain = {"justfile": []}
+        for outer, inner in (("justfile", "imp.just"), ("imp.just", "imp2.just")):
+            if inner in files and outer in chain:
+                k = files[outer].find("import '%s'" % inner)
+                chain[inner] = chain[outer] + [len(files[outer][:k].encode("utf-8"))]
+        out = []
+        for x in root["recipes"]:
+            if not x["enabled"] or x["private"]:
+                continue
+            for f in chain:
+                m_ = re.search(r"^@?(%s)( |:)" % re.escape(x["name"]), files[f], re.M)
+                if m_:
+                    out.append({"name": x["name"], "imports": chain[f], "offset": len(files[f][:m_.start(1)].encode("utf-8"))})
+                    break
+        return out
+
+    emodel = drv.pbatch([dict(entries_request(root), placed=placed_of(root, files)) for root, files in cases], chunk=1000)
     stats = {"programs": n, "with_nested_module": sum(1 for root, _ in cases if any(x["subs"] for x in root["subs"])), "names_compared": 0, "aliases": 0, "aliases_to_submodules": 0, "private_names_run": 0, "commands": 0, "declared_docs_compared": 0}
     distinct = set()
     samples = []
@@ -405,6 +424,10 @@ def run(report):
                 bad = ("choose-order", r["choose_raw"], from_summary)
             elif got_order != want_order:
                 bad = ("summary-unsorted-order", got_order, want_order)
+            elif em["unsorted"] != got_order:
+                report.failure("c17-model-unsorted", "--summary --unsorted lists %r, Just.Listing.unsortedOrder gives %r" % (got_order, em["unsorted"]),
+                               dict(replay, correspondence="C17 --unsorted order vs Just.Listing.unsortedOrder", model=em["unsorted"], impl=got_order), no_input=True)
+                continue
             elif not any(x["groups"] for x in root["recipes"]) and r["list_unsorted"] != want_order:
                 bad = ("list-unsorted-order", r["list_unsorted"], want_order)
             elif mods_list != mods_summary:
